@@ -16,7 +16,8 @@ theorem protoStep_inv {x : Option Nat} {w : World} (h : WInvX x w) (w' : World) 
     (hnp : w'.nextProto = w.nextProto)
     (hprot : ∀ q, w'.protos.get? q = if p = q then some npr else w.protos.get? q)
     (hretryT : ∀ t q rid, Pending w' t (.retry q rid) ↔ Pending w t (.retry q rid))
-    (hconnackT : ∀ t cr, Pending w' t (.connack cr) ↔ Pending w t (.connack cr))
+    (hconnackT : ∀ t cr, Pending w' t (.connack cr) → Pending w t (.connack cr))
+    (hconnackK : ∀ t cr c, w.connReqs.get? cr = some c → c.proto ≠ p → Pending w t (.connack cr) → Pending w' t (.connack cr))
     (hotherA : ∀ t q, q ≠ p → (Pending w' t (.pingAlarm q) ↔ Pending w t (.pingAlarm q)))
     (hotherL : ∀ t q, q ≠ p → (Pending w' t (.pingLoop q) ↔ Pending w t (.pingLoop q)))
     (htf : ∀ t tm, w'.timers.get? t = some tm → t < w'.nextTimer)
@@ -30,9 +31,11 @@ theorem protoStep_inv {x : Option Nat} {w : World} (h : WInvX x w) (w' : World) 
       ∀ t, l.call = some t → Pending w' t (.pingLoop p))
     (hpao : ∀ t, Pending w' t (.pingAlarm p) → npr.pingAlarm = some t)
     (hplo : ∀ t, Pending w' t (.pingLoop p) → ∃ l, npr.pingTimer = some l ∧ l.call = some t)
-    (hcing : npr.state = .connecting → ∃ cr c, npr.connReq = some cr ∧ w.connReqs.get? cr = some c ∧
-      ∀ d, c.dfd = some d → d ∉ w.fired ∧ Pending w c.alarm (.connack cr))
-    (hcrl : ∀ cr c d, npr.connReq = some cr → w.connReqs.get? cr = some c → c.dfd = some d → d ∉ w.fired)
+    (hcing : npr.state = .connecting → ∃ cr c, npr.connReq = some cr ∧ w.connReqs.get? cr = some c ∧ c.proto = p ∧
+      ∀ d, c.dfd = some d → d ∉ w.fired ∧ Pending w' c.alarm (.connack cr))
+    (hcko : ∀ t cr c, Pending w' t (.connack cr) → w.connReqs.get? cr = some c → c.proto = p →
+      npr.lost = true ∨ (npr.state = .connecting ∧ npr.connReq = some cr))
+    (hcrl : ∀ cr c, npr.connReq = some cr → w.connReqs.get? cr = some c → c.proto = p ∧ ∀ d, c.dfd = some d → d ∉ w.fired)
     (hbuf : Bytes.WF npr.buffer) : WInvX x w' := by
   have hreq := req_of_reqs hr
   have hid' : ∀ e, idOf w' e = idOf w e := by intro e; simp [idOf, hreq]
@@ -101,13 +104,26 @@ theorem protoStep_inv {x : Option Nat} {w : World} (h : WInvX x w) (w' : World) 
     · obtain ⟨qr, l, a, b, c⟩ := h.pingLoopOwned t q ((hotherL t q (fun hc => hqp hc.symm)).mp hpd)
       exact ⟨qr, l, by simp [hqp, a], b, c⟩
   case connecting =>
-    rw [hc, hf]; simp only [hprot, hconnackT]
-    have := h.connecting
-    grind
+    rw [hc, hf]; simp only [hprot]
+    intro q qr hq hs
+    by_cases hqp : p = q
+    · subst hqp
+      simp only [↓reduceIte] at hq; injection hq with hq; subst hq
+      exact hcing hs
+    · simp only [hqp, ↓reduceIte] at hq
+      obtain ⟨cr, c, i1, i2, ip, i3⟩ := h.connecting q qr hq hs
+      exact ⟨cr, c, i1, i2, ip, fun d hd => ⟨(i3 d hd).1, hconnackK _ cr c i2 (by rw [ip]; exact fun hc => hqp hc.symm) (i3 d hd).2⟩⟩
   case connReq => rw [hc, hf, hnd, he]; simp only [hreq]; exact h.connReq
   case connReqInj => rw [hc]; exact h.connReqInj
   case connReqFresh => rw [hc, hnd]; exact h.connReqFresh
-  case connackOwned => rw [hc, hf]; simp only [hconnackT]; exact h.connackOwned
+  case connackOwned =>
+    rw [hc, hf]; intro t cr hpd
+    obtain ⟨c, d, a1, a2, a3, a4, pr, a5, a6⟩ := h.connackOwned t cr (hconnackT t cr hpd)
+    refine ⟨c, d, a1, a2, a3, a4, ?_⟩
+    simp only [hprot]
+    by_cases hqp : p = c.proto
+    · exact ⟨npr, by simp [hqp], hcko t cr c hpd a1 hqp.symm⟩
+    · exact ⟨pr, by simp [hqp, a5], a6⟩
   case retryLive =>
     simp only [hprot, hretryT]
     have := h.retryLive
@@ -225,7 +241,8 @@ theorem pingOff_inv {x : Option Nat} {w : World} (h : WInvX x w) (p : Nat) (ppr 
   apply protoStep_inv h (pingOffW w p ppr t tm st now' log') p ppr { ppr with pingAlarm := none } hpp rfl rfl rfl rfl rfl rfl rfl rfl rfl
   · intro q; simp only [pingOffW, Dict.get?_set]
   · intro t' q rid; exact kill_other htm st hst rfl hpe _ _ (by simp)
-  · intro t' cr; exact kill_other htm st hst rfl hpe _ _ (by simp)
+  · intro t' cr; exact (kill_other htm st hst rfl hpe _ _ (by simp)).mp
+  · intro t' cr c _ _; exact (kill_other htm st hst rfl hpe _ _ (by simp)).mpr
   · intro t' q hq; exact kill_other htm st hst rfl hpe _ _ (by simp; exact hq)
   · intro t' q hq; exact kill_other htm st hst rfl hpe _ _ (by simp)
   · exact kill_fresh h htm _ rfl rfl
@@ -250,8 +267,15 @@ theorem pingOff_inv {x : Option Nat} {w : World} (h : WInvX x w) (p : Nat) (ppr 
     obtain ⟨pr, l, a, b, c⟩ := h.pingLoopOwned t' p ((kill_other htm st hst rfl hpe _ _ (by simp)).mp hp')
     rw [hpp] at a; injection a with a; subst a
     exact ⟨l, b, c⟩
-  · intro hs'; exact h.connecting p ppr hpp hs'
-  · intro cr c d hcq; exact h.connReqLive p ppr cr c d hpp hcq
+  · intro hs'
+    obtain ⟨cr, c, i1, i2, ip, i3⟩ := h.connecting p ppr hpp hs'
+    exact ⟨cr, c, i1, i2, ip, fun d hd => ⟨(i3 d hd).1, (kill_other htm st hst rfl hpe _ _ (by simp)).mpr (i3 d hd).2⟩⟩
+  · intro t' cr c hp' hc' hown
+    obtain ⟨c2, d, a1, a2, a3, a4, pr, a5, a6⟩ := h.connackOwned t' cr ((kill_other htm st hst rfl hpe _ _ (by simp)).mp hp')
+    rw [hc'] at a1; injection a1 with a1; subst a1
+    rw [hown, hpp] at a5; injection a5 with a5; subst a5
+    exact a6
+  · intro cr c hcq; exact h.connReqLive p ppr cr c hpp hcq
   · exact h.bufOk p ppr hpp
 
 /-- MQTTBaseProtocol.handlePINGRESP -/
